@@ -33,11 +33,12 @@ manifest = {
     "engines": [
         {"name": "lean-proofs", "path": "lean/FeatherModel/Thm", "serves_properties": sorted(CHECK_TEXT), "kind_free_text": "Lean 4 theorems over executable models (lean/FeatherModel/Model), axiom audit, leanchecker"},
         {"name": "lean-driver", "path": "lean/FeatherModel/Driver", "serves_properties": sorted(CHECK_TEXT), "kind_free_text": "compiled lean_exe answering the line protocol with the model's executable definitions"},
+        {"name": "translators", "path": "translate", "serves_properties": sorted(p for p in CHECK_TEXT if PROPS[p].get("translators")), "kind_free_text": "python translators regenerating lean/FeatherModel/Gen/*.lean from the Rust sources of /repo on every run (raw_class_file layouts, duke constants and instruction tables, Maven scope table, remap field table); a translator that cannot parse a restructured source falls back to the correspondence where props.d declares the ops tying the same content (NOTE line, evidence.assumptions)"},
         {"name": "rust-harness", "path": "harness", "serves_properties": sorted(CHECK_TEXT), "kind_free_text": "generators + executors linking the /repo crates by path (rebuilt from the working tree on every run)"},
     ],
     "checks": checks,
     "not_applicable": NOT_APPLICABLE,
-    "notes": "Every check: (P) lake build of the property's theorem module + #print axioms audit, (T) correspondence of the Lean model with the implementation on generated requests, (S) property oracles evaluated on the implementation; see DESIGN.md §2.1.",
+    "notes": "Every check: (P) lake build of the property's theorem module + #print axioms audit, (T) correspondence of the Lean model with the implementation on generated requests, (S) property oracles evaluated on the implementation; see DESIGN.md §2.1. Every implementation run is watched: a request that does not come back is reported as a violation with that request as replay (DESIGN §11.1f). Lines starting with NOTE are informational (translator fallback, §11.1e).",
 }
 json.dump(manifest, open(os.path.join(os.path.dirname(os.path.abspath(__file__)), "MANIFEST.json"), "w"), indent=1)
 print("wrote MANIFEST.json with %d checks, %d not_applicable" % (len(checks), len(NOT_APPLICABLE)))
